@@ -512,7 +512,10 @@ struct TemplateCore {
                                     }
 
                                     if (!skip) {
-                                        if (tag.TrueOffset < tag.FalseOffset) {
+                                        if (id > 255U) {
+                                            // The index of the first sub-tag of the second text is stored in 8 bits.
+                                            storage->Drop(SizeT{1});
+                                        } else if (tag.TrueOffset < tag.FalseOffset) {
                                             tag.FalseTagsStartID = SizeT8(id);
                                         } else {
                                             tag.TrueTagsStartID = SizeT8(id);
